@@ -61,6 +61,14 @@ fn respond(line: &str) -> String {
             },
             _ => "bad-op".into(),
         },
+        // relpath against the real file system (symlinks resolved by the OS); run with the wanted cwd
+        ["relpath-real", t, b] => match (dec(t), dec(b)) {
+            (Some(t), Some(b)) => match redo::relpath(path(&t), path(&b)) {
+                Ok(r) => pb(&r),
+                Err(e) => format!("err {}", e.kind() as i32),
+            },
+            _ => "bad-op".into(),
+        },
         ["dofiles", p] => match dec(p) {
             Some(p) => {
                 let p = path(&p);
